@@ -262,6 +262,9 @@ ANTAGONISTS = [
 ]
 
 
+REWRITE_ONLY_OPS = {"call:numpy.einsum", "count", "int", "float", "nonzero1", "where3", "arange", "slice1", "diagof", "call:numpy.count_nonzero", "call:numpy.tensordot", "call:numpy.vdot", "call:numpy.inner"}
+
+
 def _vocab(t):
     out = set()
     from . import tq
@@ -284,7 +287,14 @@ def foreign_vocabulary(code_t, ref_t):
     for group in ANTAGONISTS:
         if group & vr:
             allowed |= group
-    return {o for o in vc - allowed}
+    foreign = {o for o in vc - allowed}
+    # Only operations that, in this code base, appear through equivalent re-writings of a
+    # formula (explicit index arithmetic, einsum contractions, counting a mask, casts of a
+    # count) make the comparison undecided; any other foreign operation (a different solver,
+    # another estimator call, squeeze/delete/stack ...) is reported as a violation.
+    if foreign and foreign <= REWRITE_ONLY_OPS:
+        return foreign
+    return set()
 
 
 def _has_unknown(t):
